@@ -70,6 +70,10 @@ CHECKS = [
          technique='TLA+ Honey.tla (random_walk cumulative loop over integer weights, Owner intervals, Measure) model-checked by TLC for all lists in bound x all draws on a grid (walk = owner, measure = weight); the real random_walk is driven with scripted uniforms just below / at / just above every breakpoint and at midpoints and the chosen pre-terminal validated by TLC (TrHoney walk); real honeywords with scripted in-group choices validated against ExpandDefs!Derive (TrExpand honey); whole honeyword / random_walk sessions and pcfg_guesser.py runs checked for exactly N words, membership and reproducibility (TrHoney run)',
          text='The sampler is a piecewise constant function of its draws; sweeping the breakpoints decides its measure exactly (whole unit interval, not a sample) for dyadic rulesets.',
          note='Dyadic probabilities (denominator 16) so that the float partial sums are exact; lists that sum to 1. Non-dyadic float rulesets are only covered up to the 1e-16 rounding of the cumulative sums (not claimed).'),
+    dict(pid='C05', cat=MC, design='5/C05',
+         technique='TLA+ Segment.tla (exact year / context / alpha / digit / other stage functions over abstract characters) model-checked by TLC for all strings in bound (tiling at every stage, no empty or untyped segment, sound labels); the same strings are parsed by the real PCFGPasswordParser and its final list compared with Segment!Pipeline evaluated by TLC (spec -> code); every real parse (model-space strings and fragment passwords with a multi-word history, Unicode, walks, TLDs, e-mails) is snapshotted after every detector stage and validated by TLC against TrSeg (tiling, refinement chain, label soundness incl. keyboard geometry, maximal digit runs, multi-word rule, counters = tallies, structure counters)',
+         text='Exhaustive over abstract strings for the exact stages; on real parses every stage transition and every counter update is judged by the TLA+ P-layer.',
+         note='Keyboard / e-mail / website detectors are judged by soundness of what they label. Character attributes come from Python str methods. Open finding C05-F11 (U+0130).'),
 ]
 
 NOT_YET = {
